@@ -100,6 +100,8 @@ def _stamp(orc, h, st):
     rebuilt output can have new bytes under the old size and time."""
     if orc.get('fixed_mt') and h.chance(orc['fixed_mt']):
         st['mt'] = 900 + h.below(2)
+    if orc.get('link_out') and h.chance(orc['link_out']):
+        st['link'] = True         # the output is created as a symbolic link to a file elsewhere (libfoo.so -> libfoo.so.1)
     return st
 
 
@@ -187,7 +189,15 @@ def rand_ext(rnd, orc, cache):
     paths = orc['qpaths']
     p = rnd.choice(paths)
     if r < 0.40:
-        return {'op': 'ext', 'do': 'write', 'p': p, 'c': rnd.choice(CONTENTS + ['c7']), 'sz': rnd.choice(SIZES)}
+        st = {'op': 'ext', 'do': 'write', 'p': p, 'c': rnd.choice(CONTENTS + ['c7']), 'sz': rnd.choice(SIZES)}
+        if orc.get('ext_links'):
+            # inputs reached through symbolic links: created as a link, or (if the path is one) changed through it
+            r2 = rnd.random() * 100
+            if r2 < orc['ext_links']:
+                st['link'] = True
+            elif r2 < 2.5 * orc['ext_links']:
+                st['through'] = True
+        return st
     if r < 0.60:
         return {'op': 'ext', 'do': 'delete', 'p': p}
     if r < 0.70:
@@ -210,7 +220,7 @@ PROFILES = {
     'crash': {'p_crash': 0.6, 'builds': [2, 3, 3], 'p_uncaught': 0.5, 'p_clean': 0.05, 'p_base': 0.3, 'base_raise': 25},
     'foreign': {'foreign': True, 'p_crash': 0.3, 'p_clean': 0.3, 'ext': [1, 2, 3, 4]},
     'probe': {'p_probe': 0.5, 'p_crash': 0.05, 'raise': 25, 'q_spell': 30},
-    'rebuild': {'p_same_root': 1.0, 'p_crash': 0.0, 'ext': [0, 0, 0, 1], 'builds': [3, 4], 'p_clean': 0.0,
+    'rebuild': {'link_out': 15, 'ext_links': 25, 'p_same_root': 1.0, 'p_crash': 0.0, 'ext': [0, 0, 0, 1], 'builds': [3, 4], 'p_clean': 0.0,
                 'p_vers': 0.0},
     'versions': {'p_same_root': 0.9, 'p_crash': 0.0, 'ext': [0, 0, 0, 1], 'builds': [3, 4], 'p_clean': 0.0,
                  'p_vers': 0.8, 'maxstmts': [3, 4, 5], 'mut_light': 40},
@@ -220,10 +230,10 @@ PROFILES = {
     'forcrash': {'structured': True, 'foreign': True, 'foreign_at_targets': True, 'p_crash': 0.6, 'p_clean': 0.1,
                  'ext': [1, 2, 3], 'p_rmtree': 0.35, 'p_same_root': 0.85},
     'clean': {'p_clean': 0.6, 'p_double_clean': 0.5, 'p_crash': 0.15, 'foreign': True},
-    'cmp': {'p_same_root': 0.9, 'ext_meta': True, 'ext': [1, 1, 2], 'p_crash': 0.0, 'p_clean': 0.0,
+    'cmp': {'link_out': 15, 'ext_links': 25, 'p_same_root': 0.9, 'ext_meta': True, 'ext': [1, 1, 2], 'p_crash': 0.0, 'p_clean': 0.0,
             'w_read': True, 'builds': [3, 4], 'fixed_mt': 35},
     # read-back of outputs inside the subtree that built them, both modes, tampering of outputs
-    'cmpback': {'p_same_root': 0.95, 'ext_meta': True, 'ext_leaves': True, 'ext': [1, 1, 2], 'p_crash': 0.0,
+    'cmpback': {'link_out': 15, 'ext_links': 25, 'p_same_root': 0.95, 'ext_meta': True, 'ext_leaves': True, 'ext': [1, 1, 2], 'p_crash': 0.0,
                 'p_clean': 0.0, 'w_read': True, 'q_leaves': True, 'builds': [3, 4], 'raise': 4, 'nocreate': 0,
                 'nonjson': 0, 'maxstmts': [3, 4, 5], 'fixed_mt': 35, 'sizes': [4]},
     # in-place mutation of every value that crosses the API (C11), then unchanged rebuilds
@@ -1117,7 +1127,8 @@ def make_scenario(seed, profile='general'):
         'nocreate2': P.get('nocreate2', 0), 'fixed_mt': P.get('fixed_mt', 0), 'sizes': P.get('sizes', SIZES),
         'falsy_ret': P.get('falsy_ret', 0), 'base_raise': P.get('base_raise', 0), 'catch_base': P.get('catch_base', 0),
         'read_text': True,          # read_text next to declare_read / read_binary (regress files predate this key)
-        'mut_light': P.get('mut_light', 0), 'q_spell': P.get('q_spell', 0),
+        'mut_light': P.get('mut_light', 0), 'q_spell': P.get('q_spell', 0), 'link_out': P.get('link_out', 0),
+        'ext_links': P.get('ext_links', 0),
         'p_probe': int(100 * P.get('p_probe', 0) / 4),
     }
     if P.get('exotic'):
